@@ -6,7 +6,7 @@ lengths, every corruption / truncation of a valid 3-message stream), each follow
 """
 import itertools
 
-from .. import lib, env, runner
+from .. import lib, env, runner, simnet
 from ..explore import as_violation
 from ..ref import rfc6455 as R
 from ..ref import handshake as HS
@@ -39,6 +39,10 @@ def tasks(tier, seed):
                 ts.append({"part": "hs-tokens", "first": first, "second": second, "depth": depth, "name": "hs-tokens/%d/%d" % (first, second)})
         else:
             ts.append({"part": "hs-tokens", "first": first, "second": None, "depth": depth, "name": "hs-tokens/%d" % first})
+    # the same grammar as the reply of an HTTP proxy to the CONNECT request (the proxy is the first server connect() talks to)
+    for first in range(len(PX_TOKENS)):
+        ts.append({"part": "px-tokens", "first": first, "depth": 3, "name": "px-tokens/%d" % first})
+    ts.append({"part": "px-special", "name": "px-special"})
     ts.append({"part": "hs-corrupt", "name": "hs-corrupt"})
     ts.append({"part": "hs-special", "name": "hs-special"})
     ts.append({"part": "hs-fields", "name": "hs-fields"})
@@ -143,6 +147,95 @@ def hs_case(resp, ending, redirect_limit=None, subprotocols=None):
     return None
 
 
+PX_TOKENS = TOKENS + [b"200", b"407"]
+
+
+class PxSock(simnet.SimSock):
+    def __init__(self, net, idx, family, type_, proto):
+        simnet.SimSock.__init__(self, net, idx, family, type_, proto)
+        self.raised = []
+        self.sizes = []
+        self.max_fruitless = 6
+        self.at_end = net.ending
+
+    def recv(self, n):
+        self.sizes.append(n)
+        try:
+            return env.ScriptSock.recv(self, n)
+        except BaseException as e:
+            self.raised.append(e)
+            raise
+
+
+class PxNet(simnet.Net):
+    def socket(self, family=2, type=1, proto=0, fileno=None):
+        s = PxSock(self, len(self.socks), family, type, proto)
+        self.socks.append(s)
+        self.log.append(("socket", s.idx, family, type, proto))
+        return s
+
+
+class PxPeer:
+    """Answers the CONNECT with the scripted bytes; if the client goes on to send its upgrade request, answers that correctly."""
+
+    def __init__(self, reply):
+        self.reply, self.mark = reply, None
+
+    def on_send(self, sock, data):
+        w = bytes(sock.written)
+        if self.mark is None:
+            if b"\r\n\r\n" in w:
+                self.mark = len(w)
+                sock.stream += self.reply
+        elif self.mark >= 0 and b"\r\n\r\n" in w[self.mark:]:
+            try:
+                sock.stream += HS.response_101(HS.parse_request(w[self.mark:])["key"])
+            except Exception:
+                pass
+            self.mark = -1
+
+
+def px_case(reply, ending, scheme="ws", via="option"):
+    """connect() through an HTTP proxy whose answer to CONNECT is `reply`. Returns failure or None."""
+    import os
+    lib.reset_globals()
+    env.install_urandom("counter")
+    net = PxNet()
+    net.ending = ending
+    net.peer_for = lambda n_, s_, a_: PxPeer(reply)
+    opts = {}
+    saved = {k: os.environ.pop(k) for k in list(os.environ) if k.lower() in ("http_proxy", "https_proxy", "no_proxy")}
+    if via == "option":
+        opts = {"http_proxy_host": "proxy.example", "http_proxy_port": 3128, "proxy_type": "http"}
+    else:
+        os.environ["http_proxy" if scheme == "ws" else "https_proxy"] = "http://proxy.example:3128"
+    simnet.install(net)
+    sock = None
+    try:
+        ws = lib.websocket.WebSocket()
+        try:
+            ws.connect("%s://example.com/chat" % scheme, **opts)
+        except env.Spin as e:
+            return ({"kind": "spin", "phase": "proxy"}, "connect() kept calling the transport without progress on proxy reply %.80r: %s" % (reply, e))
+        except Exception as e:
+            sock = net.socks[0] if net.socks else None
+            if not isinstance(e, lib.websocket.WebSocketException) and not (sock is not None and any(e is r for r in sock.raised)):
+                v = as_violation(e)
+                where = v.sig["where"] if v else "?"
+                return ({"kind": "internal-error", "phase": "proxy", "exc": type(e).__name__, "where": where},
+                        "connect() through a proxy failed with %s (%s) in %s on the proxy's reply %.80r + %s" % (type(e).__name__, str(e)[:80], where, reply, ending))
+    finally:
+        simnet.uninstall()
+        for k in ("http_proxy", "https_proxy"):
+            os.environ.pop(k, None)
+        os.environ.update(saved)
+    for sk in net.socks:
+        big = [n for n in sk.sizes if not isinstance(n, int) or n > 16384 or n <= 0]
+        if big:
+            return ({"kind": "peer-sized-read", "phase": "proxy"}, "connect() asked the transport for %r bytes on proxy reply %.80r" % (big[0], reply))
+    return None
+
+
 def valid_response(req, extra=b""):
     return HS.response_101(req["key"])
 
@@ -239,6 +332,35 @@ def run_task(desc):
                         rec(guarded(hs_case, first, ending), {"case": "hs", "resp": first, "ending": ending})
         if desc["first"] == 0:
             res["samples"].append({"handshake_tokens": [t.decode("latin-1") for t in TOKENS], "depth": desc["depth"]})
+    elif part == "px-tokens":
+        first = PX_TOKENS[desc["first"]]
+        for k in range(1, desc["depth"] + 1):
+            for rest in itertools.product(PX_TOKENS, repeat=k - 1):
+                stream = first + b"".join(rest)
+                for ending in ENDINGS[:2] if k > 2 else ENDINGS:
+                    n += 1
+                    rec(guarded(px_case, stream, ending), {"case": "px", "reply": stream, "ending": ending, "scheme": "ws", "via": "option"})
+        if desc["first"] == 0:
+            res["samples"].append({"proxy_reply_tokens": [t.decode("latin-1") for t in PX_TOKENS], "depth": desc["depth"]})
+    elif part == "px-special":
+        ok = b"HTTP/1.1 200 Connection established\r\n\r\n"
+        specials = [ok, b"HTTP/1.0 200 OK\r\n\r\n", b"\r\n", b"\n", b"\r\n" + ok, b"\n" + ok, b"\r\n\r\n", b"HTTP/1.1 200\r\n\r\n", b"HTTP/1.1  200 OK\r\n\r\n",
+                    b"HTTP/1.1 200 OK\r\nX: \xff\xfe\r\n\r\n", b"HTTP/1.1 200 OK\r\nNoColon\r\n\r\n", b"HTTP/1.1 200 OK\r\n: v\r\n\r\n",
+                    b"HTTP/1.1 407 Proxy Authentication Required\r\nContent-Length: 99999999999\r\n\r\nbody", b"HTTP/1.1 407 X\r\nContent-Length: -1\r\n\r\n",
+                    b"HTTP/1.1 204 No Content\r\n\r\n", b"HTTP/1.1 299 Odd\r\n\r\n", b"HTTP/1.1 2e2 OK\r\n\r\n", b"HTTP/1.1 -200 OK\r\n\r\n", b"HTTP/1.1 \xb2\xb0\xb0 OK\r\n\r\n",
+                    b"HTTP/1.1 200 OK\r\n" + b"A" * 5000 + b": v\r\n\r\n", b"200\r\n\r\n", b" \r\n\r\n", b"HTTP/1.1 301 Moved\r\nLocation: ws://h/\r\n\r\n"]
+        for i in range(len(ok)):
+            for m in [1 << b for b in range(8)]:
+                specials.append(ok[:i] + bytes([ok[i] ^ m]) + ok[i + 1:])
+            specials.append(ok[:i] + b"\x00" + ok[i + 1:])
+            specials.append(ok[:i] + b"\xff" + ok[i + 1:])
+            specials.append(ok[:i])
+        for sp in specials:
+            for ending in ENDINGS:
+                for scheme, via in (("ws", "option"), ("ws", "env"), ("wss", "env")):
+                    n += 1
+                    rec(guarded(px_case, sp, ending, scheme, via), {"case": "px", "reply": sp, "ending": ending, "scheme": scheme, "via": via})
+        res["samples"].append({"proxy_special_replies": len(specials)})
     elif part == "hs-corrupt":
         key = "AAAAAAAAAAAAAAAAAAAAAA=="
         # valid response for whatever key is sent: compute inside
@@ -441,6 +563,8 @@ def replay(rep):
     c = rep["case"]
     if c == "hs":
         f = hs_case(rep["resp"], rep["ending"], rep.get("rl"))
+    elif c == "px":
+        f = px_case(rep["reply"], rep["ending"], rep.get("scheme", "ws"), rep.get("via", "option"))
     elif c == "fr" and "declared" not in rep:
         f = fr_case(rep["stream"], rep["ending"], rep["api"], rep.get("one", False))
     else:
